@@ -55,19 +55,40 @@ PROPS = {
                         'the recorded hasher input and cmp results on the generated cases'],
     },
     'C16': {
-        'level_text': 'Coq theorems (Properties/C16.v) about a line-by-line model of from_acgt_bytes (AVX2 branch built on a '
-                      'transcription of the Intel pseudo-code of the intrinsics, and scalar branch), from_dna_string, '
-                      'from_dna_only_string, from_acgt_bytes_hashn and to_ascii_vec.',
-        'level_note': 'Trusted: the transcription of the AVX2 intrinsics (coq/Packed/Avx2Model.v) - validated only by running '
-                      'both paths on this CPU; DefaultHasher is a Section variable. No axioms.',
+        'level_text': 'Coq theorems (Properties/C16.v), all closed under the global context: convert_bases = (table map, all-valid '
+                      'flag) for every 32-byte vector (all 65 536 values of a 16-bit lane at both lane halves and both 128-bit '
+                      'lanes by vm_compute, lifted through per-intrinsic byte lemmas); pack_32_bases = big-endian 2-bit packing for '
+                      'every vector of values < 4 (the kernel run on 32 symbolic bytes, SymBV reflection); hence for every byte '
+                      'string from_acgt_bytes on the AVX2 path = on the scalar path = Some(packing of map ascii_base bytes) with the '
+                      'representation invariant (ceil(len/32) blocks, unused lanes zero); from_dna_string agrees on ASCII text; '
+                      'to_ascii_vec/Display of the result = upper-cased input with non-ACGT replaced by A; from_dna_only_string '
+                      '(model of the repaired code, fixes/F6) = exactly the maximal ACGT runs for every text, the unrepaired code '
+                      'only for ASCII text and refuted on "G\u0141G"; from_acgt_bytes_hashn, for any hasher H: ACGT untouched, '
+                      'every other position = H(name,pos) mod 4 < 4, a function of (name,pos) only. Totality: every theorem '
+                      'states Some (no panic).',
+        'level_note': 'Trusted: the transcription of the AVX2 intrinsics from the Intel pseudo-code (coq/Packed/Avx2Model.v) - '
+                      'validated only by running both paths on this CPU (hook H2 forces the scalar path); the hand-written '
+                      'models of dna_string.rs; DefaultHasher is a Section variable H (its observed values are fed to the model '
+                      'in the correspondence run). All vector constants, byte tables and loop constants are regenerated from the '
+                      'source (pins) so the kernel lemmas are re-proved against the current constants. No axioms.',
         'technique': 'exhaustive vm_compute over the 65 536 byte pairs of a 16-bit lane lifted to all vectors, reflective '
                      'symbolic bit-vector proof of the packing kernel, list induction; differential correspondence',
-        'rule': 'all 256 byte values at each of the 32 lanes of a vector block and in the scalar tail; random blocks; every length '
-                '0..130 in four content classes; both paths (AVX2 and, through hook H2, scalar); str constructors on ASCII and '
-                'non-ASCII text; hashed-N constructor: determinism, ACGT untouched, range, locality; non-trivial = the input has '
-                'a byte outside ACGT (lower case, invalid, non-ASCII) or is longer than one block',
+        'rule': 'all 256 byte values at each of the 32 lanes of a vector block (8192 blocks) and in the scalar tail; random blocks; '
+                'every length 0..130 in four content classes plus 255..4113; both paths (AVX2 and, through hook H2, scalar; the op '
+                'name records which path ran); storage words + len read through serde; str constructors on ASCII and non-ASCII '
+                'text; hashed-N constructor: determinism (two calls), ACGT untouched, range, locality under edits, and the '
+                'independently recomputed DefaultHasher values fed to the model; non-trivial = the input has a byte outside '
+                'upper-case ACGT (lower case, invalid, non-ASCII) or is longer than one block',
         'profiles': ['debug', 'release'],
+        'theorems': ['C16_convert_lane_pair', 'C16_convert_bases_spec', 'C16_pack_spec', 'C16_from_acgt_paths_agree',
+                     'C16_stored_bases', 'C16_from_acgt_inv', 'C16_agree_with_str', 'C16_render_roundtrip', 'C16_dna_only_runs',
+                     'C16_dna_only_runs_bytes', 'C16_runs_maximal', 'C16_dna_only_runs_old', 'C16_dna_only_nonascii_refuted',
+                     'C16_hashn_spec', 'C16_hashn_local', 'C16_hashn_checkers'],
+        'trusted_extra': ['Intel AVX2 intrinsic semantics as transcribed in coq/Packed/Avx2Model.v (validated only by the runs on this CPU)',
+                          'std::collections::hash_map::DefaultHasher is a fixed function of the bytes fed (Section variable H)'],
         'assumptions': ['Intel AVX2 intrinsic semantics are as transcribed in coq/Packed/Avx2Model.v',
-                        'std DefaultHasher is a fixed function of the bytes fed (Section variable H)'],
+                        'std DefaultHasher is a fixed function of the bytes fed (Section variable H)',
+                        'from_dna_only_string is modelled after the repair fixes/F6-from_dna_only_string.patch; until it is applied '
+                        'to /repo the check reports the known finding F6 on non-ASCII text'],
     },
 }
